@@ -6,6 +6,7 @@ from . import boot  # noqa: F401
 from collections import deque
 
 from . import enc
+from .monitor import env_slot
 from .scripted_rng import ScriptedRng, enumerate_outcomes
 
 
@@ -14,11 +15,17 @@ def successors(env, state, action, stochastic, outcome_limit=64):
     Exceptions from the real step propagate to the caller."""
     if not stochastic:
         return [env.functional_step(state, action)], True
-    saved = env._rng
+    slot = env_slot(env, 'rng')
+    if slot is None:
+        env.set_seed(0)  # an environment that was never seeded holds no generator yet: give it one (it is replaced below anyway)
+        slot = env_slot(env, 'rng')
+    if slot is None:
+        raise RuntimeError('the environment keeps no generator attribute the harness can script')
+    saved = getattr(env, slot)
     results = []
 
     def run(rng):
-        env._rng = rng
+        setattr(env, slot, rng)
         return env.functional_step(state, action)
 
     try:
@@ -34,7 +41,7 @@ def successors(env, state, action, stochastic, outcome_limit=64):
                 raise res
             results.append(res)
     finally:
-        env._rng = saved
+        setattr(env, slot, saved)
     # distinct successors only
     seen, out = set(), []
     for ns, r, d in results:
